@@ -19,6 +19,16 @@ MARK_FIELD = {"mark_contains_union": "contains_union", "mark_contains_intersect"
               "mark_within_generic": "within_generic", "mark_within_table_indexer": "within_table_indexer"}
 
 
+def _result_under(v, flag_key):
+    """the returned value on a path, given that the context flag `flag_key` is set: a constant, or the flag itself
+    (`.. || context.flag` returns the field when the rest is false)"""
+    if v and v[0] == "const":
+        return v[1]
+    if v and v[0] == "fieldbool" and v[1] == flag_key:
+        return True
+    return "?"
+
+
 def rule_typaren(ctx, prop):
     import extract
     rep = Report(prop, "R-TYPAREN", "keep_parentheses(type, context) keeps the parentheses the Luau type grammar needs, the "
@@ -49,7 +59,7 @@ def rule_typaren(ctx, prop):
                     continue
                 v = st.vals.get(0)
                 # rows where the flag is true or not examined (covers true)
-                outs.add(v[1] if v and v[0] == "const" else "?")
+                outs.add(_result_under(v, f"arg:2.{flag}"))
             ok = outs == {True}
             rep.inst(f"{f.key} {K} under {flag} -> keep", {"kind": K, "flag": flag, "results": sorted(map(str, outs))}, cfg, ok=ok)
             if not ok:
@@ -63,7 +73,7 @@ def rule_typaren(ctx, prop):
                 if st.disc.get("arg:2.within_generic") == "false":
                     continue
                 v = st.vals.get(0)
-                outs.add(v[1] if v and v[0] == "const" else "?")
+                outs.add(_result_under(v, "arg:2.within_generic"))
             ok = outs == {True}
             rep.inst(f"{f.key} {K} within_generic -> keep", None, cfg, ok=ok)
             if not ok:
